@@ -247,10 +247,24 @@ class Exec:
         xs = [self.opnd(o) for o in s["a"]]
         kw = _kw(s, self.be == "np")
         sp = s.get("sp")       # spelling: None = library function, "op" = Python operator, "method" = method of operand 0
-        if sp == "op" and f in _OPERATORS and not kw:
+        if sp == "op" and f in _OPERATORS and not kw and "wm" not in s:
             r = _OPERATORS[f](*xs) if f != "power" else xs[0] ** s["p"]
         elif sp == "method" and f in ("sum", "mean", "prod", "max", "min", "var"):
             r = getattr(xs[0], f)(**kw)
+        elif "wm" in s and f in ("add", "subtract", "multiply", "maximum", "minimum", "negative", "positive", "square", "abs"):
+            # where=mask without out=: the masked-out cells of the fresh result are uninitialised memory; both sides zero them
+            m = np.array(s["wm"]["v"], dtype=bool).reshape(s["wm"]["sh"])
+            fn = getattr(L, "abs" if f == "abs" else f)
+            if self.be == "mg":
+                r = fn(*xs, where=m, **kw)
+                d = r.data                       # (locked by the memory guard like any array a graph holds: unlock for the fix-up)
+                was = d.flags.writeable
+                d.flags.writeable = True
+                d[~np.broadcast_to(m, d.shape)] = 0
+                d.flags.writeable = was
+            else:
+                bsh = np.broadcast_shapes(*[np.shape(x) for x in xs], m.shape)
+                r = fn(*xs, where=m, out=np.zeros(bsh, dtype=np.result_type(*xs)))
         elif f in ("add", "subtract", "multiply", "divide", "maximum", "minimum", "matmul"):
             r = getattr(L, f)(*xs, **kw)
         elif f == "power":
